@@ -23,7 +23,7 @@ PROPERTY = 'C13'
 TECHNIQUE = 'symbolic execution of the real quantizer modules on z3-real tensors (all clauses as unsat queries) + bit-precise z3 Float32 execution of the PACT kernel'
 FUNCTIONS_ENCODED = ['MinMaxWeight.forward/scale/_compute_min_max_sym', 'MinMaxSymSTE.forward', '_min_max_quantize', 'PACTAct.forward/scale',
                      'PACTActSTE.forward', 'QuantizerBias.forward/scale', 'QuantizeBiasSTE.forward', 'RoundSTE.forward']
-BOUNDS = {'quick': 'weights C x n in {1x1, 1x3, 2x2}, bits {0,2,3,8}; PACT bits {2,3,8}, clip symbolic in [0.05,1000] (grid {0.05,0.5,6,1000} when NRA stalls), x arbitrary real; bias: 2 channels, scales >= 0 incl. 0 and the isclose band; FP32: PACT bits {2,8}, all float32 x with |x| <= 2^13, clip in [0.05,1000]',
+BOUNDS = {'quick': 'weights C x n in {1x1, 1x3, 2x2}, bits {0,2,3,8}; PACT bits {2,3,8}, clip symbolic in [0.05,1000] (grid {0.05,0.5,6,1000} when NRA stalls), x arbitrary real; bias: 2 channels, scales >= 0 incl. 0 and the isclose band; FP32: PACT bits {2,8}, all float32 x with |x| <= 2^13, clip in [0.05,1000]; weight quantizer observed after an earlier call on the same nn.Parameter that was then updated through .data / in place (1x2, bits {2,8})',
           'thorough': 'weights up to 2x3, bits {0,2,...,8}; PACT bits 2..8; FP32 PACT bits {2,3,4,8}; range and negative-to-zero for every float32 clip in [0.05,1000]; monotonicity for the clipping thresholds {0.05, 0.3, 1, 3.3, 6, 1000} (a symbolic threshold is not decided by z3 within 240 s)'}
 OUTSIDE = ['float32 round-off inside MinMaxWeight / QuantizerBias (real semantics there)', 'denormal weights, clip values comparable to the 1e-3 stabiliser (< 0.05)',
            'asymmetric weight quantisation, PACTActSigned, FQ weights']
